@@ -1206,6 +1206,18 @@ func (c *FnCtx) numberLoops(body ast.Node) {
 		case *ast.ForStmt, *ast.RangeStmt:
 			n++
 			c.loopOrd[x] = n
+			if fs, ok := x.(*ast.ForStmt); ok && fs.Init != nil {
+				if as, ok := fs.Init.(*ast.AssignStmt); ok && as.Tok == token.DEFINE && len(as.Lhs) == 1 {
+					if id, ok := as.Lhs[0].(*ast.Ident); ok {
+						if v, ok := c.info.ObjectOf(id).(*types.Var); ok {
+							if c.loopInitVar == nil {
+								c.loopInitVar = map[token.Pos]*types.Var{}
+							}
+							c.loopInitVar[fs.Pos()] = v
+						}
+					}
+				}
+			}
 		case *ast.CallExpr:
 			if name := c.calleeShort(y); name != "" {
 				calls[name]++
